@@ -14315,7 +14315,8 @@ gcry_error_t CallasDonnerhackeFinneyShawThayerRFC4880::SymmetricEncryptAEAD
 			return gcry_error(GPG_ERR_TOO_SHORT); // error: input too short
 		}
 		size_t len = in.size();
-		unsigned char inbuf[len], outbuf[len], tag[taglen];
+		tmcg_openpgp_octets_t inmem(len + 1), outmem(len + 1); // heap, not stack
+		unsigned char *inbuf = &inmem[0], *outbuf = &outmem[0], tag[taglen];
 		if (verbose > 2)
 			std::cerr << "INFO: SymmetricEncryptAEAD in = " << std::hex;
 		for (size_t i = 0; i < len; i++)
@@ -14470,7 +14471,8 @@ gcry_error_t CallasDonnerhackeFinneyShawThayerRFC4880::SymmetricEncryptAEAD
 				gcry_cipher_close(hd);
 				return gcry_error(GPG_ERR_TOO_SHORT); // error: input too short
 			}
-			unsigned char inbuf[chunkdim], outbuf[chunkdim], tag[taglen];
+			tmcg_openpgp_octets_t inmem(chunkdim + 1), outmem(chunkdim + 1); // heap, not stack
+			unsigned char *inbuf = &inmem[0], *outbuf = &outmem[0], tag[taglen];
 			for (uint64_t i = 0; i < chunkdim; i++)
 				inbuf[i] = in[nbytes+i];
 			ret = gcry_cipher_encrypt(hd, outbuf, chunkdim, inbuf, chunkdim);
@@ -14592,7 +14594,8 @@ gcry_error_t CallasDonnerhackeFinneyShawThayerRFC4880::SymmetricEncryptAEAD
 			std::cerr << "INFO: SymmetricEncryptAEAD len = " << len <<
 				std::endl;
 		}
-		unsigned char inbuf[len], outbuf[len], tag[taglen];
+		tmcg_openpgp_octets_t inmem(len + 1), outmem(len + 1); // heap, not stack
+		unsigned char *inbuf = &inmem[0], *outbuf = &outmem[0], tag[taglen];
 		if (verbose > 2)
 			std::cerr << "INFO: SymmetricEncryptAEAD in = " << std::hex;
 		for (size_t i = 0; i < len; i++)
@@ -15125,7 +15128,8 @@ gcry_error_t CallasDonnerhackeFinneyShawThayerRFC4880::SymmetricDecryptAEAD
 			return gcry_error(GPG_ERR_TOO_SHORT); // error: input too short
 		}
 		size_t len = in.size() - taglen;
-		unsigned char inbuf[len], outbuf[len], tag[taglen];
+		tmcg_openpgp_octets_t inmem(len + 1), outmem(len + 1); // heap, not stack
+		unsigned char *inbuf = &inmem[0], *outbuf = &outmem[0], tag[taglen];
 		if (verbose > 2)
 			std::cerr << "INFO: SymmetricDecryptAEAD in = " << std::hex;
 		for (size_t i = 0; i < len; i++)
@@ -15265,7 +15269,8 @@ gcry_error_t CallasDonnerhackeFinneyShawThayerRFC4880::SymmetricDecryptAEAD
 				gcry_cipher_close(hd);
 				return gcry_error(GPG_ERR_TOO_SHORT); // error: input too short
 			}
-			unsigned char inbuf[chunkdim], outbuf[chunkdim], tag[taglen];
+			tmcg_openpgp_octets_t inmem(chunkdim + 1), outmem(chunkdim + 1); // heap, not stack
+			unsigned char *inbuf = &inmem[0], *outbuf = &outmem[0], tag[taglen];
 			for (uint64_t i = 0; i < chunkdim; i++)
 				inbuf[i] = in[nbytes+i];
 			for (size_t i = 0; i < taglen; i++)
@@ -15359,7 +15364,8 @@ gcry_error_t CallasDonnerhackeFinneyShawThayerRFC4880::SymmetricDecryptAEAD
 			std::cerr << "INFO: SymmetricDecryptAEAD len = " << len <<
 				std::endl;
 		}
-		unsigned char inbuf[len], outbuf[len], tag[taglen];
+		tmcg_openpgp_octets_t inmem(len + 1), outmem(len + 1); // heap, not stack
+		unsigned char *inbuf = &inmem[0], *outbuf = &outmem[0], tag[taglen];
 		if (verbose > 2)
 			std::cerr << "INFO: SymmetricDecryptAEAD in = " << std::hex;
 		for (size_t i = 0; i < len; i++)
